@@ -234,15 +234,16 @@ def run_and_validate(jobs, name, workdir, atomics="st", specs=("Trace_Abs",), np
     os.makedirs(workdir, exist_ok=True)
     if not jobs:
         return {"execs": 0, "events": 0, "viols": [], "incidents": [], "files": []}
-    n = max(1, min(nproc, (len(jobs) + 199) // 200))
+    # at most nproc chunks at a time; a chunk holds at most 12000 executions (the trace of a chunk is read into TLC as one value)
+    n = max(1, min(max(nproc, (len(jobs) + 11999) // 12000), (len(jobs) + 199) // 200))
     chunks = [jobs[i::n] for i in range(n)]
     paths = [os.path.join(workdir, "%s.%d.ndjson" % (name, i)) for i in range(n)]
     t0 = time.time()
-    with cf.ThreadPoolExecutor(max_workers=n) as ex:
+    with cf.ThreadPoolExecutor(max_workers=min(n, nproc)) as ex:
         inc = list(ex.map(lambda a: run_chunk(a[0], a[1], atomics), zip(chunks, paths)))
     t1 = time.time()
     res = {"execs": 0, "events": 0, "viols": [], "incidents": [i for l in inc for i in l], "files": paths, "run_s": t1 - t0}
-    with cf.ThreadPoolExecutor(max_workers=n) as ex:
+    with cf.ThreadPoolExecutor(max_workers=min(n, nproc)) as ex:
         futs = {}
         for sp in specs:
             for p in paths:
